@@ -67,6 +67,8 @@ def gen_c10(rng, idx, tier, faults):
         a, b = sorted(perm[:k]), sorted(perm[k:])
         if rng.random() < 0.2 and n > 5:
             a = sorted(set(a + b[:1]))  # overlapping folds are legal for explicit iterables
+        elif rng.random() < 0.2 and len(b) > 2:
+            b = b[:-1]  # ... and so is partial coverage of the samples
         cv = {"type": rng.choice(["list", "generator"]), "pairs": [[a, b]]}
         if rng.random() < 0.3:
             cv["pairs"].append([b, a])
